@@ -355,7 +355,8 @@ def check_post_passes(ctx: Ctx) -> None:
              and isinstance(n.ast.value.args[0], ast.Name) and n.ast.value.args[0].id in appended]
     fcs = [n for n, c in flow.all_calls() if call_name(prog, w, c) == fc_q]
     for j in joins:
-        ok = bool(fcs) and all(flow.cfg.path_avoiding(j, r, set(fcs)) is None for r in rets if flow.cfg.path_avoiding(j, r, set()) is not None)
+        # (a return that applies the fix itself - `return outer(fix(result))` - passes it as well)
+        ok = bool(fcs) and all(r in fcs or flow.cfg.path_avoiding(j, r, set(fcs)) is None for r in rets if flow.cfg.path_avoiding(j, r, set()) is not None)
         ctx.ob("R-ATOMIC-post", f"{w.qual} :: joined segments pass the closing-tag fix", ok,
                "after the segments are rejoined, closing tags must be un-indented / separated (_fix_closing_tag_spacing) on every path to the return",
                where(w, j))
